@@ -17,14 +17,18 @@ REGISTRY = {
     "C07": ("cores", {"rel": []}),
     "C08": ("itp", {"rel": []}),
     "C09": ("itp", {"rel": []}),
+    "C10": ("proofs", {"rel": []}),
     "C11": ("trace", {"rel": []}),
     "C12": ("trace", {"rel": []}),
     "C13": ("trace", {"rel": []}),
+    "C14": ("apiharness", {"rel": ["h_terms"]}),
     "C15": ("apiharness", {"asan": ["h_rational"]}),
+    "C16": ("apiharness", {"asan": ["h_numparse"]}),
     "C18": ("procmon", {"asan": []}),
     "C20": ("procmon", {"rel": []}),
     "C23": ("procmon", {"rel": []}),
     "C26": ("trace", {"rel": []}),
+    "C28": ("apiharness", {"rel": ["h_terms"]}),
     "C29": ("history", {"rel": []}),
     "C30": ("history", {"rel": []}),
 }
